@@ -182,6 +182,29 @@ def main(tier: str, seed: int) -> int:
         w3["simulation"]["network"]["airspace"] = {"frequency_max_capacity_mbps": {"WIFI_2_4": capb / 1048576.0 * 8.0}}
         traces += _run_game(rec, w3, 3, f"wireless_tight_{capb}", pings=[("pc_a", "192.168.2.2")])
         chk.add_case(f"wireless_tight_{capb}")
+    # a channel whose interfaces all go away and come back WITHIN a tick keeps the load it has carried in that tick:
+    # traffic, then every access point of the frequency disabled and enabled again (one after the other / all down at
+    # once), then more traffic, all before the next tick
+    for capb in (icmp * 3, icmp * 12):
+        for order in ("both_down", "one_at_a_time"):
+            w4 = copy.deepcopy(wl)
+            w4["simulation"]["network"]["airspace"] = {"frequency_max_capacity_mbps": {"WIFI_2_4": capb / 1048576.0 * 8.0}}
+            game = scenarios.build(w4)
+            net = game.simulation.network
+            req = game.simulation.apply_request
+            for _ in range(3):
+                game.step()
+                net.get_node_by_hostname("pc_a").ping("192.168.2.2", pings=4)
+                if order == "both_down":
+                    seq = [("router_1", "disable"), ("router_2", "disable"), ("router_1", "enable"), ("router_2", "enable")]
+                else:
+                    seq = [("router_1", "disable"), ("router_1", "enable"), ("router_2", "disable"), ("router_2", "enable")]
+                for r_, v in seq:
+                    req(["network", "node", r_, "network_interface", 1, v])
+                net.get_node_by_hostname("pc_a").ping("192.168.2.2", pings=4)
+                net.get_node_by_hostname("pc_b").ping("192.168.0.2", pings=2)
+            traces += rec.take(stimulus={"scenario": f"wireless_toggle_{order}_{capb}", "steps": 3})
+            chk.add_case(f"wireless_toggle_{order}_{capb}")
     if tier == "thorough":
         traces += _run_env(rec, scenarios.shipped("uc7_config.yaml"), 60, rng, "uc7")
         traces += _run_game(rec, scenarios.shipped("multi_lan_internet_network_example.yaml"), 10, "multi_lan")
